@@ -596,6 +596,84 @@ def rename_to_baseline(fn):
 
 
 # ------------------------------------------------------------------------------------------------------
+# N-ORIENT: `a < b` and `b > a` (and, on integers, `!(a >= b)`) are one comparison. Rules written against the pinned tree
+# mention some comparisons by text; every relational comparison is therefore oriented the way the same comparison is
+# written in the pinned version of the function (the set of its comparison texts is part of sa/baseline_locals.json).
+# A comparison that has no counterpart there keeps the form it was written in.
+_INTS = ('int', 'unsigned int', 'long', 'unsigned long', 'char', 'unsigned char', 'short', 'unsigned short', 'uint8_t', 'uint16_t', 'uint32_t', 'uint64_t',
+         'int8_t', 'int16_t', 'int32_t', 'int64_t', 'size_t', 'long long', 'unsigned long long', 'gdstk::Tag', 'Tag')
+_FLIP = {'<': '>', '>': '<', '<=': '>=', '>=': '<='}
+_NEG = {'<': '>=', '>': '<=', '<=': '>', '>=': '<', '==': '!=', '!=': '=='}
+
+
+def rel_text(n):
+    return ' '.join(n.text().split())
+
+
+def relations_of(fn):
+    return sorted({rel_text(n) for n in fn.body.walk() if n.k == 'BinaryOperator' and n.op in _FLIP})
+
+
+def _is_int(e):
+    t = (e.ct or e.t or '').replace('const', '').strip()
+    return t in _INTS or t.endswith('*')
+
+
+def _flip(n):
+    l, r = n.child('lhs'), n.child('rhs')
+    setj(n, op=_FLIP[n.op])
+    set_children(n, [(r, 'lhs'), (l, 'rhs')])
+
+
+def orient_to_baseline(fn):
+    if not ENABLED or fn.body is None or os.environ.get('GDSTK_SA_NO_ORIENT'):
+        return 0
+    base = _baseline().get('__relations__', {}).get(fkey(fn))
+    if base is None:
+        return 0
+    base = set(base)
+    done = 0
+    # `!(a OP b)` on integers (and `!(a == b)` on anything): the negated operator, when the pinned text has that form
+    for u in [x for x in fn.body.walk() if x.k == 'UnaryOperator' and x.op == '!']:
+        inner = strip(u.child('sub'))
+        while inner is not None and inner.k == 'ParenExpr':
+            inner = strip(inner.c[0])
+        if inner is None or inner.k != 'BinaryOperator' or inner.op not in _NEG or u.parent is None:
+            continue
+        l, r = inner.child('lhs'), inner.child('rhs')
+        if l is None or r is None or has_side_effects(l) or has_side_effects(r):
+            continue
+        if inner.op in _FLIP and not (_is_int(strip(l)) and _is_int(strip(r))):
+            continue            # with floating-point operands `!(a < b)` and `a >= b` differ on NaN
+        old = inner.op
+        setj(inner, op=_NEG[old])
+        t1 = rel_text(inner)
+        hit = t1 in base
+        if not hit and inner.op in _FLIP:
+            _flip(inner)
+            hit = rel_text(inner) in base
+            if not hit:
+                _flip(inner)
+        if hit:
+            replace_child(u.parent, u, inner)
+            done += 1
+        else:
+            setj(inner, op=old)
+    for n in [x for x in fn.body.walk() if x.k == 'BinaryOperator' and x.op in _FLIP]:
+        if rel_text(n) in base:
+            continue
+        l, r = n.child('lhs'), n.child('rhs')
+        if l is None or r is None or not ((pure_expr(l) and pure_expr(r)) or not has_side_effects(l) or not has_side_effects(r)):
+            continue            # (the operands of a built-in comparison are unsequenced: swapping two pure ones, or one with effects and one without, changes nothing)
+        _flip(n)
+        if rel_text(n) in base:
+            done += 1
+        else:
+            _flip(n)
+    return done
+
+
+# ------------------------------------------------------------------------------------------------------
 # N-INLINE: a file-local helper that does not exist in the pinned tree (a block extracted by an edit) is put back where it is called
 
 def _base_functions():
@@ -656,6 +734,10 @@ def _structure(stmts, f, binding, at, assign):
         if s.k == 'ReturnStmt':
             v = s.child('value')
             if v is None:
+                if assign is not None:
+                    return None
+                return out, True            # `return;` of a void helper: nothing more on this path
+            if assign is None:
                 return None
             out.append(assign(_subst_clone(v, f, binding, at)))
             return out, True
@@ -698,6 +780,21 @@ def _inline_structured(f, c, h, binding):
     """`T v = h(..);`, `x = h(..);` or `return h(..);` with a helper whose returns are structured: the body replaces the
     statement, each return becoming the initialisation / assignment / return."""
     body = [x for x in h.body.c if x is not None]
+    if (h.ret or '').strip() == 'void':
+        # a call statement of a void helper with early returns: the code after an `if (...) return;` moves into the else branch
+        if c.parent is None or c.parent.k != 'CompoundStmt':
+            return False
+        r = _structure(body, f, binding, c, None)
+        if r is None:
+            return False
+        out = []
+        for ch, role in pairs(c.parent):
+            if ch is c:
+                out += [(n_, 'x') for n_ in r[0]]
+            else:
+                out.append((ch, role))
+        set_children(c.parent, out)
+        return True
     up = c.parent
     while up is not None and up.k in CASTS:
         up = up.parent
@@ -746,7 +843,56 @@ def _inline_structured(f, c, h, binding):
             return False
         keep = False
     else:
-        return False
+        # nested in an expression statement (`x |= h(a) << 2;`): the result goes through a fresh local declared in front of
+        # the statement - the same evaluation when this call is the statement's only call and the variables it is handed
+        # by reference do not occur elsewhere in the statement
+        stmt = c
+        while stmt.parent is not None and stmt.parent.k != 'CompoundStmt':
+            if stmt.parent.k not in ('BinaryOperator', 'CompoundAssignOperator', 'UnaryOperator', 'ConditionalOperator') + CASTS:
+                return False
+            if stmt.parent.k == 'ConditionalOperator' or (stmt.parent.k == 'BinaryOperator' and stmt.parent.op in ('&&', '||', ',')):
+                return False            # conditionally evaluated
+            stmt = stmt.parent
+        if stmt.parent is None or stmt is c:
+            return False
+        if sum(1 for x in stmt.walk() if x.k in ('CallExpr', 'CXXMemberCallExpr', 'CXXOperatorCallExpr', 'CXXConstructExpr', 'CXXNewExpr', 'CXXDeleteExpr')) != 1:
+            return False
+        inside = {x.id for x in c.walk()}
+        byref = set()
+        for p_, a in zip(h.params, c.args):
+            if '&' in (p_.get('t') or '') or '*' in (p_.get('t') or ''):
+                byref |= {x.d for x in a.walk() if x.k == 'DeclRefExpr'}
+        if any(x.k == 'DeclRefExpr' and x.d in byref and x.id not in inside for x in stmt.walk()):
+            return False
+        ty = (h.ret or c.t or '').replace('const ', '').strip()
+        if not ty or ty == 'void':
+            return False
+        _clone_id[0] -= 1
+        did = _clone_id[0]
+        name = '__%s_result%d' % (h.name, -did)
+        var = mk_node(f, 'VarDecl', c.l, n=name, d=did, dk='local', t=ty, ct=ty, cfgat=c.id)
+        decl = mk_node(f, 'DeclStmt', c.l, cfgat=c.id)
+        set_children(decl, [(var, 'var')])
+
+        def ref():
+            return mk_node(f, 'DeclRefExpr', c.l, n=name, d=did, dk='local', t=ty, ct=ty, cfgat=c.id)
+
+        def assign(v):
+            a = mk_node(f, 'BinaryOperator', c.l, op='=', t=ty, cfgat=c.id)
+            set_children(a, [(ref(), 'lhs'), (v, 'rhs')])
+            return a
+        r = _structure(body, f, binding, c, assign)
+        if r is None or not r[1]:
+            return False
+        out = []
+        for ch, role in pairs(stmt.parent):
+            if ch is stmt:
+                out.append((decl, 'x'))
+                out += [(n_, 'x') for n_ in r[0]]
+            out.append((ch, role))
+        set_children(stmt.parent, out)
+        replace_child(c.parent, c, ref())
+        return True
     out = []
     for ch, role in pairs(stmt.parent):
         if ch is stmt:
@@ -805,7 +951,7 @@ def inline_new_helpers(db):
                     replace_child(c.parent, c, comp if len(news) != 1 else news[0])
                     changed = True
                     done += 1
-                elif rets and len(rets) > 1 and _inline_structured(f, c, h, binding):
+                elif rets and (len(rets) > 1 or (h.ret or '').strip() == 'void') and _inline_structured(f, c, h, binding):
                     changed = True
                     done += 1
                 elif not rets and c.parent.k == 'CompoundStmt':
@@ -822,6 +968,7 @@ def inline_new_helpers(db):
             if not changed:
                 break
             _normalise(f)
+            orient_to_baseline(f)
     return done
 
 
